@@ -253,7 +253,7 @@ def build(sim, typ):
     sil = case.silicon()
     app = sil.app
     if kind == "mutated":
-        m = sim.pick("cc.mut", ["cclen", "mle0", "mlc0", "tlvtag", "tlvlen", "nlen_big", "bytes", "ver", "short_cc", "fid", "huge"])
+        m = sim.pick("cc.mut", ["cclen", "mle0", "mlc0", "tlvtag", "tlvlen", "nlen_big", "bytes", "ver", "short_cc", "fid", "huge", "over_answer"])
         cc = app.files[b"\xE1\x03"]
         if m == "cclen":
             v = sim.pick("cclen", [0, 1, 2, 3, 7, 14, 16, 255, 0xFFFF])
@@ -289,6 +289,8 @@ def build(sim, typ):
             case.mle, case.chunk, case.wtx_every = 0xFF, None, 0      # keep the run short: full size answers, no WTX
             sil.chunk, sil.wtx_plan = None, None
             d["huge"] = [total, nlen]
+        elif m == "over_answer":
+            app.over_answer = sim.pick("over.n", [1, 2, 5, 16, 255])
         elif m == "nlen_big":
             f = app.files[app.ndef_fid]
             f[0:case.nlen_size] = sim.pick("nlen", [0xFFFF, len(f), len(f) - 1, 0x8000]).to_bytes(4, "big")[-case.nlen_size:]
